@@ -68,7 +68,7 @@ Section Vec.
       set (arg1 := suffix pos (v_received v - stg) l suf).
       assert (P : positions lens arg1 = seq (v_received v) (total lens - v_received v)).
       { unfold arg1. rewrite Hlens, positions_suffix by lia. f_equal; [lia | f_equal; lia]. }
-      assert (RO : ranges_ok lens (v_received v) arg1 = true).
+      assert (RO : ranges_ok lens (v_received v) true arg1 = true).
       { unfold arg1. replace (v_received v) with (stg + (v_received v - stg))%nat at 1 by lia.
         rewrite Hlens. apply ranges_ok_suffix. lia. }
       assert (TG := total_ge).
